@@ -822,3 +822,62 @@ func (c *Ctx) eofUpdatePred(fn *ssa.Function, depth int) func(ssa.Instruction) b
 		return false
 	}
 }
+
+// narrowingRule: on the writing side (everything that is not reachable from the read API), a conversion of a non-constant
+// integer to a narrower unsigned type keeps the value: the operand is proven to fit the target type where it is converted
+// (type interval, dominating tests, callee summaries). Not-decided conversions (deliberate truncations such as
+// byte(v >> 8) among them) are frozen per function in baselines/narrowing.json; growth is reported.
+func narrowingRule(c *Ctx, r *Result, rule string) {
+	readers := c.readerSet(r)
+	per := map[string][]undecidedItem{}
+	n := 0
+	for _, fn := range c.LibFuncs() {
+		if readers[fn] || fn.Blocks == nil {
+			continue
+		}
+		pk := shortPkg(fnPkgPath(fn))
+		if pk != "hdf5" && pk != "core" && pk != "structures" && pk != "writer" {
+			continue
+		}
+		fb := c.FB(fn)
+		instrs(fn, func(in ssa.Instruction) {
+			cv, ok := in.(*ssa.Convert)
+			if !ok {
+				return
+			}
+			to, ok1 := cv.Type().Underlying().(*types.Basic)
+			from, ok2 := cv.X.Type().Underlying().(*types.Basic)
+			if !ok1 || !ok2 || to.Info()&types.IsUnsigned == 0 || from.Info()&types.IsInteger == 0 {
+				return
+			}
+			tb, fbits := basicBits(to), basicBits(from)
+			if tb == 0 || tb >= 64 || (fbits != 0 && fbits <= tb && from.Info()&types.IsUnsigned != 0) {
+				return
+			}
+			if _, isK := cv.X.(*ssa.Const); isK {
+				return
+			}
+			n++
+			_, thi := fb.typeRange(cv.Type())
+			if _, hi := fb.rng(cv.X); hi <= thi {
+				return
+			}
+			if fb.ProveGE0At(linConst(thi).add(fb.lin(cv.X), -1), cv) {
+				return
+			}
+			per[c.Name(fn)] = append(per[c.Name(fn)], undecidedItem{c.InstrPos(cv), "conversion to " + to.Name() + ": operand " + fb.linString(fb.lin(cv.X)) + " is not shown to be <= " + itoa64(thi)})
+		})
+	}
+	if n < 50 {
+		r.Shortfall(c, rule, fmt.Sprintf("%s: only %d narrowing conversions examined on the writing side", rule, n))
+	}
+	r.ApplyBaselineFile(verifDirGlobal, "narrowing", rule, "narrowing-conversion", per)
+}
+
+func init() {
+	txt := "a size, count or offset written into a narrower field fits it: on the writing side every conversion of a non-constant integer to a narrower unsigned type has its operand proven within the target type where it happens (a header of exactly 256 bytes whose length goes through byte() is written as length 0); conversions that are not decided are frozen per function and only growth is reported"
+	registry["C05"].Meta.Rules["C05.11"] = txt
+	registry["C05"].Rules = append(registry["C05"].Rules, func(c *Ctx, r *Result) { narrowingRule(c, r, "C05.11") })
+	registry["C01"].Meta.Rules["C01.12"] = txt + " (shared with C05.11)"
+	registry["C01"].Rules = append(registry["C01"].Rules, func(c *Ctx, r *Result) { narrowingRule(c, r, "C01.12") })
+}
